@@ -575,6 +575,10 @@ class Extractor:
                     return SInt(None, l.off * r.off)
             raise AnalysisError('templates: unsupported multiplication %s in %s' % (norm(e), m.qname))
         if isinstance(e.op, ast.Mod):
+            if isinstance(l, tuple) and l and l[0] == 'global':
+                r_ = self.repo.module_binding(m.module, l[1])
+                if r_ and r_[0] == 'var' and isinstance(r_[2], ast.Constant) and isinstance(r_[2].value, str):
+                    l = Lit(r_[2].value)
             if not isinstance(l, Lit):
                 raise AnalysisError('templates: non-constant format string %s in %s' % (norm(e.left), m.qname))
             args = r.items if isinstance(r, PyList) else [r]
